@@ -120,22 +120,24 @@ func buildEvidence(e *Engine, spec *PropSpec, prop, tier string, seed int, repor
 		samples = []any{"none"}
 	}
 	cov := map[string]any{
-		"obligations":               nObl,
-		"discharged":                nDis,
-		"checker_cmd":               fmt.Sprintf("bin/govc check --property %s --tier %s  (per obligation: z3-new | z3 | cvc5 raced on one SMT-LIB query)", prop, tier),
-		"trusted_base":              []string{"golang.org/x/tools/go/ssa v0.29.0", "govc VC generator (/verif/govc)", "z3 5.1.0 / z3 4.8.12 / cvc5 1.0.3", "assumed library contracts listed under assumptions", "/repo/*/verif_contracts.go (specification)"},
-		"functions_under_contract":  fns,
-		"solvers":                   sc,
-		"samples":                   samples,
-		"known_findings":            known,
-		"undecided_not_claimed":     undecided,
-		"claimed_but_not_generated": missing,
-		"unsupported_functions":     unsupportedFns,
-		"inlined_callees":           keys(inl),
-		"callee_contracts_used":     keys(usedCt),
-		"scope":                     spec.Scope,
-		"not_covered":               spec.NotCovered,
-		"bounded_standins":          spec.standinReports,
+		"obligations":                       nObl,
+		"discharged":                        nDis,
+		"checker_cmd":                       fmt.Sprintf("bin/govc check --property %s --tier %s  (per obligation: z3-new | z3 | cvc5 raced on one SMT-LIB query)", prop, tier),
+		"trusted_base":                      []string{"golang.org/x/tools/go/ssa v0.29.0", "govc VC generator (/verif/govc)", "z3 5.1.0 / z3 4.8.12 / cvc5 1.0.3", "assumed library contracts listed under assumptions", "/repo/*/verif_contracts.go (specification)"},
+		"functions_under_contract":          fns,
+		"solvers":                           sc,
+		"samples":                           samples,
+		"known_findings":                    known,
+		"undecided_not_claimed":             undecided,
+		"claimed_but_not_generated":         missing,
+		"unsupported_functions":             unsupportedFns,
+		"inlined_callees":                   keys(inl),
+		"callee_contracts_used":             keys(usedCt),
+		"scope":                             spec.Scope,
+		"not_covered":                       spec.NotCovered,
+		"bounded_standins":                  spec.standinReports,
+		"replays_of_findings":               spec.regReports,
+		"discharged_by_two_or_more_solvers": spec.confirmed2,
 	}
 	return map[string]any{
 		"property_id": prop,
